@@ -97,6 +97,47 @@ def gen_pax_cases(rng, tier):
         yield Case(f'paxrec-{r}', ops)
 
 
+def pax_record(key, val):
+    """`len key=value\\n` with the self-referential decimal length."""
+    body = b' ' + key + b'=' + val + b'\n'
+    n = len(body) + 1
+    while len(str(n)) + len(body) != n:
+        n = len(str(n)) + len(body)
+    return str(n).encode() + body
+
+
+def gen_paxbody_cases(rng, tier):
+    """Extended-header bodies for the reader's record loop: well-formed sequences of records with arbitrary
+    value bytes (newlines, '=', NUL), keys up to the 512-byte look-ahead, unknown keys, and malformed variants."""
+    reps = 2 if tier == 'quick' else 30
+    for r in range(reps):
+        ops = []
+        for _ in range(12):
+            recs = []
+            for k in range(rng.choice([0, 1, 2, 5])):
+                nl = rng.choice([1, 2, 10, 127, 128, 129, 200, 480, 486, 487, 488, 495])
+                name = bytes(rng.choice(b'abcXYZ.-_%/ ') for _ in range(nl))
+                key = (b'SCHILY.xattr.' + name) if rng.random() < 0.8 else b'verif.' + name[:40]
+                vl = rng.choice([0, 1, 2, 8, 80, 85, 86, 87, 95, 500, 985, 990, 3000])
+                val = bytes(rng.choice([10, 61, 0, 32, 48, 255, 97]) if rng.random() < 0.5 else rng.randrange(256) for _ in range(vl))
+                recs.append(pax_record(key, val))
+            body = b''.join(recs)
+            ops.append(f'paxbody {hx(body)}')
+            if body and rng.random() < 0.5:       # malformed: cut, digit changed, newline replaced
+                m = bytearray(body)
+                how = rng.choice(['cut', 'len+1', 'nonl', 'noeq'])
+                if how == 'cut':
+                    m = m[:rng.randrange(1, len(m))]
+                elif how == 'len+1':
+                    m[0] = 48 + (m[0] - 48 + 1) % 10
+                elif how == 'nonl':
+                    m[-1] = 32
+                else:
+                    m = bytearray(m.replace(b'=', b':', 1))
+                ops.append(f'paxbody {hx(bytes(m))}')
+        yield Case(f'paxbody-{r}', ops)
+
+
 def gen_atol_cases(rng, tier):
     reps = 2 if tier == 'quick' else 40
     for r in range(reps):
@@ -711,6 +752,7 @@ class Codec(Engine):
             yield from gen_fmt_cases(rng, tier)
             yield from gen_atol_cases(rng, tier)
             yield from gen_pax_cases(rng, tier)
+            yield from gen_paxbody_cases(rng, tier)
         import itertools
         if self.mode == 'c02':
             for c in itertools.chain(gen_c02_cases(rng, tier), gen_meta_cases(rng, tier, 'c02')):
@@ -767,7 +809,7 @@ class Codec(Engine):
         return None if v == 'ok' else v
 
     def nontrivial(self, case, impl):
-        return any('r=-1' in l or 'v=' in l or 'h=' in l for l in impl)
+        return any('r=-1' in l or 'v=' in l or 'h=' in l or 'st=' in l for l in impl)
 
     def stats(self, cases, impl):
         st = {'ops': {}, 'fmt_overflow': 0, 'fmt_ok': 0}
